@@ -320,6 +320,49 @@ def reentrant_disconnect(chk):
                           '%d packets queued, an outgoing listener calls disconnect() while packet %d is being written: %s; expected each of 0..%d once, in order' % (n, j, what, n - 1))
 
 
+def backlog_then_reconnect(chk):
+    """'an immediate disconnect sends nothing further' - not on this connection, and not on the next one either: packets left
+    in the queue by an immediate disconnect (or queued while disconnected) never reach a later connection of the same object."""
+    from minecraft.networking.connection import Connection
+    Raw = make_packets()
+    for n, when in ((3, 'before'), (40, 'before'), (2, 'after'), (3, 'both')):
+        net = sim.Net([sim.Server([], end='idle'), sim.Server([], end='idle')], idle_limit=8).install()
+        try:
+            conn = Connection('localhost', 25565, username='user', allowed_versions={757}, handle_exception=False)
+            conn.connect()
+            net.run_threads(conn, max_threads=1)
+
+            def queue(k):
+                for i in range(k):
+                    p = Raw()
+                    p.id = 0x30
+                    p.data = bytes([0, i])
+                    conn.write_packet(p)
+            if when in ('before', 'both'):
+                queue(n)
+            conn.disconnect(immediate=True)
+            if when in ('after', 'both'):
+                queue(n)
+            conn.connect()
+            net.run_threads(conn, max_threads=2)
+        except Exception as e:
+            chk.violation('backlog', 'backlog:%d:%s:exc' % (n, when), {'case': {'queued': n, 'when': when}, 'observed': exn_name(e)}, 'backlog scenario raised %s' % exn_name(e))
+            continue
+        finally:
+            net.uninstall()
+        chk.count('backlog', [n, when], True)
+        first = [pid for pid, _b in proto.parse_frames(b''.join(net.servers[0].sends))]
+        second = [pid for pid, _b in proto.parse_frames(b''.join(net.servers[1].sends))]
+        what = None
+        if 0x30 in first:
+            what = 'the first connection carries %d of the packets although the disconnect was immediate' % first.count(0x30)
+        elif 0x30 in second or len(second) != 2:
+            what = 'the connection made afterwards starts with frames %s (expected handshake and login start only)' % [hex(x) for x in second[:6]]
+        if what:
+            chk.violation('backlog', 'backlog:%d:%s' % (n, when), {'case': {'queued': n, 'queued_when': when + ' the immediate disconnect'}, 'observed': what},
+                          '%d packets queued %s an immediate disconnect, then connect(): %s' % (n, when, what))
+
+
 def random_policy(rng, sticky=0.6):
     def pol(k, runnable, default):
         if rng.random() < sticky:
@@ -396,6 +439,7 @@ def run(chk):
     replay_on_model(chk, good, 'replay')
     bulk(chk)
     reentrant_disconnect(chk)
+    backlog_then_reconnect(chk)
     if good:
         chk.sample('random', {'programs': good[-1][0].progs, 'wire': good[-1][1], 'preemptions': good[-1][0].preempt}, k=1)
     chk.assumptions += ['PARTIAL: the granularity of atomicity is assumed - deque.append / popleft and one socket.send are atomic, a blocking send transmits all its bytes; real OS preemption is represented by the scheduling points only',
